@@ -617,6 +617,38 @@ pub fn u_size(family: Family, field_lens: &[usize], targets: &[usize]) -> Vec<As
             out.push(Ast::Auth { code: 0x18, props: vec![Prop { id: 0x15, val: PVal::Str(s.clone()) }, Prop { id: 0x16, val: PVal::Bin(b.clone()) }] });
         }
     }
+    // v5: property LENGTH on its width boundaries (1/2 and 2/3 bytes) in every property set
+    if v5 {
+        for &pl in &[127usize, 128, 16383, 16384] {
+            if !field_lens.contains(&127) {
+                break;
+            }
+            let up = |p: usize| vec![Prop { id: 0x26, val: PVal::Pair(rep('k', p - 5), String::new()) }];
+            let f1 = vec![("a".to_string(), 1u8)];
+            out.push(Ast::Connect { level: 5, clean: true, keep_alive: 1, props: up(pl), client_id: "c".into(), will: None, username: None, password: None });
+            out.push(Ast::Connect { level: 5, clean: true, keep_alive: 1, props: vec![], client_id: "c".into(), will: Some(Will { qos: 0, retain: false, props: up(pl), topic: "t".into(), payload: vec![1] }), username: None, password: None });
+            out.push(Ast::Connack { session_present: false, code: 0, props: up(pl) });
+            out.push(Ast::Publish { dup: false, qos: 1, retain: false, topic: "t".into(), pid: Some(7), props: up(pl), payload: vec![1, 2] });
+            for t in [PUBACK, PUBREC, PUBREL, PUBCOMP] {
+                out.push(Ast::Ack { typ: t, pid: 7, code: 0, props: up(pl) });
+            }
+            out.push(Ast::Subscribe { pid: 7, props: up(pl), topics: f1.clone() });
+            out.push(Ast::Suback { pid: 7, props: up(pl), codes: vec![1] });
+            out.push(Ast::Unsubscribe { pid: 7, props: up(pl), topics: vec!["a".into(), "b/#".into()] });
+            out.push(Ast::Unsuback { pid: 7, props: up(pl), codes: vec![0x11] });
+            out.push(Ast::Disconnect { code: 0, props: up(pl) });
+            out.push(Ast::Auth { code: 0, props: up(pl) });
+            // two user properties adding up to the same boundary
+            if pl >= 20 {
+                let two = vec![
+                    Prop { id: 0x26, val: PVal::Pair("a".into(), "b".into()) },
+                    Prop { id: 0x26, val: PVal::Pair(rep('k', pl - 7 - 5), String::new()) },
+                ];
+                out.push(Ast::Unsubscribe { pid: 7, props: two.clone(), topics: vec!["a".into()] });
+                out.push(Ast::Subscribe { pid: 7, props: two, topics: f1.clone() });
+            }
+        }
+    }
     // remaining-length targets
     for &tg in targets {
         // PUBLISH qos0: 2 + 1 (+1 property length) + payload
